@@ -11,7 +11,7 @@ from hgmon.build import all_fids
 LEVEL = "exploration"
 RULE = (
     "all program families (DAG, gated, loops, nested, mapped, wait_for DAGs with emits, signals read as plain inputs "
-    "with the entry point downstream of the emitter, cached nodes and cached gates "
+    "with the entry point downstream of the emitter, a name that is a data output of one exclusive branch and the signal of the other, cached nodes and cached gates "
     "with emits run twice on one cache) x entry-point sets (1-3 non-gate nodes) x selections at graph level, run time "
     "and inside nested graphs x on_missing in {ignore, warn, error}; results of completed, failed (continue) and paused "
     "runs; some function nodes return None (a produced value); 25% of the graphs are derived (with_entrypoint/select/bind) from objects that were already run. Oracle: (a) "
@@ -171,6 +171,13 @@ def one(ctx, fam, i):
         else:
             cache = InMemoryCache()
     kw = {"select": rsel} if rsel else {}
+    if emits and fam["family"] in ("emit-entry", "waitdag", "cached") and rng.random() < 0.5:
+        # an ordering signal's name explicitly selected next to data names: still never a value
+        sig = rng.choice(sorted(emits))
+        kw = {"select": list(rsel or sorted(data)[:1]) + [sig]}
+        if not rsel:
+            effective = kw["select"][:-1]
+        ctx.obs["signal_name_selected"] += 1
     fids = [f for f, ns in all_fids(spec).items() if ns["k"] == "fn"]
     for runner in ("sync", "async"):
         if runner == "sync" and any(ns["k"] == "int" for ns in spec["nodes"]):
@@ -283,6 +290,27 @@ def emit_entry_family(rng):
     return {"family": "emit-entry", "spec": spec, "inputs": {"a": "run:a", "b": "run:b"}, "kw": {}}
 
 
+def emit_data_alias_family(rng):
+    """One name that is a DATA output of one exclusive branch and an ordering signal (emit) of the other: whichever
+    branch runs, the result holds a value under that name or nothing, never the signal's marker."""
+    kind = rng.choice(["ifelse", "route"])
+    if kind == "ifelse":
+        gate = {"k": "ifelse", "name": "pick", "params": [{"n": "s"}], "t": "as_data", "f": "as_signal", "table": [True, False]}
+    else:
+        gate = {"k": "route", "name": "pick", "params": [{"n": "s"}], "targets": ["as_data", "as_signal"], "table": ["as_data", "as_signal"]}
+    gate["open"] = rng.random() < 0.5
+    nodes = [
+        gate,
+        {"k": "fn", "name": "as_data", "params": [{"n": "x"}], "outs": ["ready"]},
+        {"k": "fn", "name": "as_signal", "params": [{"n": "x"}], "outs": ["summary"], "emit": ["ready"]},
+        {"k": "fn", "name": "after", "params": [{"n": "y"}], "outs": ["details"], "wait": ["ready"]},
+    ]
+    if rng.random() < 0.5:
+        rng.shuffle(nodes)
+    spec = {"name": "g", "nodes": nodes, "bind": {}}
+    return {"family": "emit-data-alias", "spec": spec, "inputs": {"s": rng.randint(0, 1), "x": "run:x", "y": "run:y"}, "kw": {}}
+
+
 def interrupt_family(rng):
     """DAG with 1-2 pausing interrupts: exercises PAUSED results."""
     from hgmon.props import C14
@@ -303,5 +331,5 @@ def run(ctx):
         ctx.case("r2")
         return
     for i in range(n):
-        fam = cached_gate_emit(ctx.rng) if i % 5 == 4 else interrupt_family(ctx.rng) if i % 7 == 3 else emit_entry_family(ctx.rng) if i % 11 == 6 else families.rich(ctx.rng)
+        fam = cached_gate_emit(ctx.rng) if i % 5 == 4 else interrupt_family(ctx.rng) if i % 7 == 3 else emit_entry_family(ctx.rng) if i % 11 == 6 else emit_data_alias_family(ctx.rng) if i % 13 == 8 else families.rich(ctx.rng)
         one(ctx, fam, i)
